@@ -57,6 +57,7 @@ StepCloneGuard == Ev.ev = "CloneGuard" /\ CloneGuard(Ev.p) /\ Observed
 StepAcquireWrite == Ev.ev = "AcquireWrite" /\ AcquireWrite(Ev.p) /\ Observed
 StepCallSubscribe == Ev.ev = "CallSubscribe" /\ CallSubscribe(Ev.p) /\ Observed
 StepInsertSenders == Ev.ev = "InsertSenders" /\ InsertSenders(Ev.p) /\ Observed
+StepCancelStream == Ev.ev = "CancelStream" /\ CancelStream(Ev.p) /\ Observed
 StepActorStep == Ev.ev = "ActorStep" /\ ActorStep /\ Observed
 StepCloneHandle == Ev.ev = "CloneHandle" /\ CloneHandle(Ev.p, Ev.k) /\ Observed
 StepFetchSub == Ev.ev = "FetchSub" /\ FetchSub(Ev.p) /\ Observed
@@ -69,7 +70,7 @@ TraceNext ==
     /\ i' = i + 1
     /\ \/ StepReset
        \/ StepReadSenders \/ StepCloneGuard \/ StepAcquireWrite \/ StepCallSubscribe
-       \/ StepInsertSenders \/ StepActorStep \/ StepCloneHandle \/ StepFetchSub \/ StepSendUnsub
+       \/ StepInsertSenders \/ StepCancelStream \/ StepActorStep \/ StepCloneHandle \/ StepFetchSub \/ StepSendUnsub
 
 TraceSpec == TraceInit /\ [][TraceNext]_tvars
 
